@@ -444,7 +444,7 @@ def bounds(tier):
         "rows_all_permutations": "<= 5 rows (all 1..3 x 1..3 shapes), visit / joint / covariate layouts, patterns {none, mixed} (5-row joint / covariate tables: mixed only); <= 4 rows again with age alphabet A1, events E1, 2 covariates" if q
         else "<= 6 rows (all shapes), visit / joint / covariate layouts, patterns {none, mixed}, age alphabets A0 and A1, event alphabets E0 and E1, 1 and 2 covariates",
         "missing_patterns_all": "every pattern of every shape with <= 3 rows x every permutation" if q else "every pattern of every shape with <= 4 rows (covariate layout: <= 3 rows) x every permutation",
-        "identifier_types": sorted(T.ID_TYPES), "forms": ["columns", "index"],
+        "identifier_types": sorted(T.ID_TYPES), "forms": ["columns", "index"] + ["columns + " + f.replace("_", " ") for f in T.LABEL_FORMS],
         "event_layout": "1..3 individuals, all row orders, indicator alphabets E0..E4",
         "crossed_malformations": "every identifier malformation (missing nan/None/NA, empty, negative, float, fractional, mixed) x every identifier dtype "
         "(object text, numeric-looking text, int64, string, Int64, category of text / of int / with unused categories) x columns/index form, and "
@@ -496,6 +496,19 @@ def shards(tier, seed):
                     out.append({"family": "perm", "layout": layout, "shape": sh, "nans": "mixed", "part": [0, 1],
                                 "idtype": idtype, "form": form, "ages": "A0", **extra})
             out.append({"family": "event", "idtype": idtype, "form": form})
+    # (3b) row labels of the table (ID / TIME as columns): reversed, sparse, text, all equal
+    for form in T.LABEL_FORMS:
+        for layout in ("visit", "joint", "covariate"):
+            extra = {"joint": {"ev": "E1"}, "covariate": {"ncov": 2}}.get(layout, {})
+            for sh in ([[2, 1, 1]] if q else [[2, 1, 1], [1, 2, 2]]):
+                out.append({"family": "perm", "layout": layout, "shape": sh, "nans": "mixed", "part": [0, 1],
+                            "idtype": "str", "form": form, "ages": "A0", **extra})
+        out.append({"family": "event", "idtype": "str", "form": form})
+    # (3c) joint layout: individuals sharing the same event time and indicator (every row order)
+    for ev in ("E5", "E6"):
+        for sh in ([[1, 1], [2, 1, 1]] if q else [[1, 1], [1, 1, 1], [2, 1, 1], [1, 2, 2]]):
+            out.append({"family": "perm", "layout": "joint", "shape": sh, "nans": "mixed", "part": [0, 1],
+                        "idtype": "str", "form": "columns", "ages": "A0", "ev": ev})
     # (4) malformations
     for layout in ("visit", "event", "joint", "covariate"):
         for order in MALFORM_ORDERS:
